@@ -314,6 +314,7 @@ type assignSet struct {
 	onlyRefs []Term     // reach(x) with x private: any component may change, but only at these objects
 	allBelow *Term      // callback effect: every object older than this allocation mark may change ...
 	keep     *assignSet // ... except these
+	keepRefs []Term     // ... and these objects, in every component (objects private to the caller)
 }
 
 func newAssignSet() *assignSet {
@@ -693,7 +694,24 @@ func (run *FuncRun) applyContract(st *State, fc *FuncContract, sig *types.Signat
 			for _, f := range env.takeFacts() {
 				st.Assume(f)
 			}
-			if as.all {
+			if as.all && run.contract != nil && len(run.contract.CallPreserves[fc.Key]) > 0 && st.frame != nil {
+				// the function under verification assumes that this callee leaves some objects alone
+				cenv := run.contractEnv(st, run.entry, st.frame)
+				keep := cenv.assignSetOfItems(run.contract.CallPreserves[fc.Key], run.contract.Where)
+				for _, f := range cenv.takeFacts() {
+					st.Assume(f)
+				}
+				pa := newAssignSet()
+				mark := st.alloc
+				pa.allBelow = &mark
+				pa.keep = keep
+				for _, r := range sortedKeys(st.private) {
+					pa.keepRefs = append(pa.keepRefs, Term{r, SInt})
+				}
+				st.script.Comment("callee " + fc.Key + " assigns everything except what " + run.key + " assumes it preserves")
+				st.newEpoch(pre, pa)
+				run.assumedFrames[run.key+" assumes "+fc.Key+" preserves its source"] = true
+			} else if as.all {
 				st.HavocAll("callee " + fc.Key + " assigns everything")
 			} else if as.onlyRefs != nil {
 				st.script.Comment("callee " + fc.Key + " writes only objects reachable from a destination private to this function")
@@ -827,6 +845,9 @@ func (run *FuncRun) frameAxioms(name string, nw, old Term, preAlloc Term, as *as
 			for _, w := range as.keep.whole[name] {
 				alts = append(alts, fmt.Sprintf("(= %s %s)", r, w.S))
 			}
+		}
+		for _, w := range as.keepRefs {
+			alts = append(alts, fmt.Sprintf("(= %s %s)", r, w.S))
 		}
 		conds = append(conds, "(or "+strings.Join(alts, " ")+")")
 	}
